@@ -457,8 +457,42 @@ pub fn check_net(net: &Net, o: Obj, softmax_ce: bool, seed: u64, case: &Kv, rep:
         rep.nontrivial += 1;
     }
     let tag = if softmax_ce { "softmax+cross-entropy" } else { "backward" };
-    if !compare_params(net, &got, &want, tag, case, rep) {
-        return;
+    let mut first = Report::new();
+    if !compare_params(net, &got, &want, tag, case, &mut first) {
+        // repeat with the conditioning allowance (see the end-to-end comparison below): 64 x the movement of the exact
+        // gradient when weights, input and upstream gradient / target are perturbed by one single-precision rounding
+        let mut k = 0u32;
+        let mut bump = |v: f64| -> f64 {
+            k = k.wrapping_add(1);
+            v * (1.0 + if k % 2 == 0 { 1.2e-7 } else { -1.2e-7 })
+        };
+        let pp: Vec<P<f64>> = to_f64(&params).iter().map(|p| P { w: p.w.iter().map(|b| b.iter().map(|v| bump(*v)).collect()).collect(), b: p.b.as_ref().map(|b| b.iter().map(|v| bump(*v)).collect()), inner: p.inner.iter().map(|q| q.map(&|v| v)).collect() }).collect();
+        let xp: Vec<f64> = x64.iter().map(|v| bump(*v)).collect();
+        let gp: Vec<f64> = g.iter().map(|v| bump(*v)).collect();
+        let tp: Vec<f64> = t64.iter().map(|v| bump(*v)).collect();
+        let vjp_p = |out: &[Dual]| -> Dual {
+            let mut s = Dual::c(0.0);
+            for (oo, w) in out.iter().zip(&gp) {
+                s = s + *oo * Dual::c(*w);
+            }
+            s
+        };
+        let ce_p = |out: &[Dual]| -> Dual {
+            let mut s = Dual::c(0.0);
+            for (p, t) in out.iter().zip(&tp) {
+                s = s + Dual::c(*t) * p.ln();
+            }
+            -s
+        };
+        let (want_p, _) = if softmax_ce { gradients(net, &shapes, &pp, &xp, &ce_p) } else { gradients(net, &shapes, &pp, &xp, &vjp_p) };
+        let moved = want.iter().flat_map(|p| p.flat()).zip(want_p.iter().flat_map(|p| p.flat())).fold(0.0f64, |m, (a, b)| m.max((a - b).abs()));
+        ALLOWANCE.with(|a| a.set(if moved.is_finite() { 64.0 * moved } else { 0.0 }));
+        let ok = compare_params(net, &got, &want, tag, case, rep);
+        ALLOWANCE.with(|a| a.set(0.0));
+        if !ok {
+            return;
+        }
+        rep.count("backward_checks_accepted_by_conditioning", 1);
     }
     // end-to-end derivative of the reported loss for the objectives whose gradient is its derivative
     if !softmax_ce && o.gradient_is_derivative() && !o.probabilistic() {
@@ -566,7 +600,41 @@ pub fn check_net(net: &Net, o: Obj, softmax_ce: bool, seed: u64, case: &Kv, rep:
                                 };
                                 let (want2, _) = if softmax_ce { gradients(net, &shapes, &after64, &x64, &loss_ce) } else { gradients(net, &shapes, &after64, &x64, &vjp2) };
                                 rep.count("gradient_checks_after_a_training_step", 1);
-                                let _ = compare_params(net, &got2, &want2, "after a training step", case, rep);
+                                let mut first = Report::new();
+                                if !compare_params(net, &got2, &want2, "after a training step", case, &mut first) {
+                                    // conditioning allowance, as above (a step of 0.125 leaves some networks close to divergence)
+                                    let mut k = 0u32;
+                                    let mut bump = |v: f64| -> f64 {
+                                        k = k.wrapping_add(1);
+                                        v * (1.0 + if k % 2 == 0 { 1.2e-7 } else { -1.2e-7 })
+                                    };
+                                    let pp: Vec<P<f64>> = after64.iter().map(|p| P { w: p.w.iter().map(|b| b.iter().map(|v| bump(*v)).collect()).collect(), b: p.b.as_ref().map(|b| b.iter().map(|v| bump(*v)).collect()), inner: p.inner.iter().map(|q| q.map(&|v| v)).collect() }).collect();
+                                    let xp: Vec<f64> = x64.iter().map(|v| bump(*v)).collect();
+                                    let gp: Vec<f64> = g2.iter().map(|v| bump(*v)).collect();
+                                    let tp: Vec<f64> = t64.iter().map(|v| bump(*v)).collect();
+                                    let vjp_p = |out: &[Dual]| -> Dual {
+                                        let mut s = Dual::c(0.0);
+                                        for (oo, w) in out.iter().zip(&gp) {
+                                            s = s + *oo * Dual::c(*w);
+                                        }
+                                        s
+                                    };
+                                    let ce_p = |out: &[Dual]| -> Dual {
+                                        let mut s = Dual::c(0.0);
+                                        for (p, t) in out.iter().zip(&tp) {
+                                            s = s + Dual::c(*t) * p.ln();
+                                        }
+                                        -s
+                                    };
+                                    let (want_p, _) = if softmax_ce { gradients(net, &shapes, &pp, &xp, &ce_p) } else { gradients(net, &shapes, &pp, &xp, &vjp_p) };
+                                    let moved = want2.iter().flat_map(|p| p.flat()).zip(want_p.iter().flat_map(|p| p.flat())).fold(0.0f64, |m, (a, b)| m.max((a - b).abs()));
+                                    ALLOWANCE.with(|a| a.set(if moved.is_finite() { 64.0 * moved } else { 0.0 }));
+                                    let ok = compare_params(net, &got2, &want2, "after a training step", case, rep);
+                                    ALLOWANCE.with(|a| a.set(0.0));
+                                    if ok {
+                                        rep.count("after_training_checks_accepted_by_conditioning", 1);
+                                    }
+                                }
                             }
                             Err(e) => rep.violate("C01 backward returns inconsistent gradients", format!("{} after a training step: {}", net.name(), e), case),
                         },
